@@ -128,7 +128,7 @@ pub fn one_case(kind: &str, si: &gen::SchemaInfo, input: &J, out: &mut Out) {
     }
 }
 
-fn merge_sdl() -> String { format!("{}\ninput In {{ a: Int  b: Int }}\ninterface Pet {{ name: String  nick: String  owner: Human }}\ntype Dog implements Pet {{ name: String  nick: String  barks: Boolean  owner: Human  n: Int  l: [Int]  m: Int!  boss: Human!  pack: [Human!] }}\ntype Cat implements Pet {{ name: String  nick: String  meows: Boolean  owner: Human  n: String  l: [Int!]  m: Int  boss: Human  pack: [Human] }}\nunion CatOrDog = Cat | Dog\ntype Human {{ name: String  nick: String  f(x: Int, y: [Int], o: In): Int  list: [Int]  nn: Int!  self: Human  pet: Pet  dog: Dog  cd: CatOrDog }}\ntype Query {{ human: Human  pet: Pet  dog: Dog  cat: Cat  cd: CatOrDog }}\n", schemas::PRELUDE) }
+fn merge_sdl() -> String { format!("{}\ninput In {{ a: Int  b: Int  fl: Float }}\ninterface Pet {{ name: String  nick: String  owner: Human }}\ntype Dog implements Pet {{ name: String  nick: String  barks: Boolean  owner: Human  n: Int  l: [Int]  m: Int!  boss: Human!  pack: [Human!] }}\ntype Cat implements Pet {{ name: String  nick: String  meows: Boolean  owner: Human  n: String  l: [Int!]  m: Int  boss: Human  pack: [Human] }}\nunion CatOrDog = Cat | Dog\ntype Human {{ name: String  nick: String  f(x: Int, y: [Int], o: In, fl: Float): Int  list: [Int]  nn: Int!  self: Human  pet: Pet  dog: Dog  cd: CatOrDog }}\ntype Query {{ human: Human  pet: Pet  dog: Dog  cat: Cat  cd: CatOrDog }}\n", schemas::PRELUDE) }
 
 fn frags_sdl() -> String { format!("{}\nscalar Custom\nenum E {{ X }}\ninput In {{ x: Int }}\ninterface I {{ a: Int  t: T }}\ninterface J implements I {{ a: Int  t: T }}\ninterface K {{ a: Int }}\ninterface L {{ a: Int }}\ninterface M implements I {{ a: Int  t: T }}\ntype T implements I & J & K {{ a: Int  t: T  i: I  j: J  u: U  k: K }}\ntype V {{ a: Int }}\ntype W implements I {{ a: Int  t: T }}\ntype X implements K & L {{ a: Int }}\nunion U = T | V\nunion U2 = V | W\ntype Query {{ a: Int  t: T  i: I  j: J  u: U  u2: U2  v: V  w: W  k: K  l: L  x: X  m: M }}\n", schemas::PRELUDE) }
 
@@ -351,6 +351,18 @@ pub fn generate(kind: &str, thorough: bool, seed: u64, corpus: &str, out: &mut O
             let mut fills: Vec<String> = vec![];
             for d in dirs.iter() { for m in 1..=3 { fills.push((0..m).map(|_| format!(" @{}", d)).collect::<String>()); } }
             for d in dirs.iter().take(10) { for e in ["rep", "everywhere", "unknownDirective"] { fills.push(format!(" @{} @{} @{}", d, e, d)); } }
+            // a schema that declares no directive: the built-in names are as unknown as any other
+            {
+                let si0 = gen::SchemaInfo::new("no-directives", &format!("scalar Boolean\nscalar Float\nscalar Int\nscalar ID\nscalar String\n{}", schemas::TINY));
+                out.schema(&si0);
+                for d in ["skip(if: true)", "include(if: false)", "deprecated", "specifiedBy(url: \"u\")", "nope", "Skip(if: true)"] {
+                    for t in [format!("{{ a @{} }}", d), format!("{{ a @{} @{} }}", d, d), format!("query Q @{} {{ t {{ ...F @{} ... @{} @{} {{ a }} }} }} fragment F on T @{} {{ a }}", d, d, d, d, d),
+                              format!("{{ t {{ a @{} }} t {{ a @{} }} }}", d, d)] {
+                        crate::valcases::rules_case(&si0, &t, &rules, &tmp, out);
+                    }
+                }
+                out.schema(&si);
+            }
             let empty: [String; 10] = Default::default();
             for i in 0..10 { for f in &fills { let mut sl = empty.clone(); sl[i] = f.clone(); crate::valcases::rules_case(&si, &template(&sl), &rules, &tmp, out); } }
             // two slots at once (an owner nested in / following another directive-bearing owner)
@@ -394,6 +406,14 @@ pub fn generate(kind: &str, thorough: bool, seed: u64, corpus: &str, out: &mut O
                               "query ($v: Int) { ...F } fragment F on Query { a } fragment F on Query { f(x: 1, y: $v) }",
                               "{ ...F } fragment F on Query { a } fragment F on Query { a }",
                               "query Q { a } query Q { zz }", "query Q { a } query Q { f(x: 1) }", "{ f(x: 1, x: \"s\") }", "{ f(x: 1, s: \"s\", s: 2) }"] { docs.push(t.to_string()); }
+                }
+                if si.name == "dup-names" {
+                    // a chain of more than a hundred fragments closing back into its own middle: a cycle in every order of the definitions
+                    for (n, back) in [(101usize, 1usize), (110, 60)] {
+                        let mut t = String::from("query { ...F0 }");
+                        for j in 0..n { t.push_str(&format!(" fragment F{} on Query {{ {} }}", j, if j + 1 < n { format!("...F{}", j + 1) } else { format!("...F{}", back) })); }
+                        docs.push(t);
+                    }
                 }
                 if si.name == "no-subscription-root" {
                     // F19: the subscription-root `__typename` report of fields-on-correct-type is the only error
@@ -489,6 +509,23 @@ pub fn generate(kind: &str, thorough: bool, seed: u64, corpus: &str, out: &mut O
             }
             for t in ["query ($x: Int!) { f(d: $x) }", "query ($x: Int = 3) { f(d: $x) }", "query ($x: Int) { f(plain: $x) }", "{ f(d: 2, o: {v: 1, w: [1]}) }", "{ f }"] {
                 crate::valcases::accept_case(&si, t, &tmp, json!({"family": "location-default-control"}), out);
+            }
+            // a variable used where a SUPERTYPE of its type is expected (non-null strengthened at any level, defaults promoting
+            // a nullable variable): spec-valid, must be accepted
+            {
+                let shapes = ["Int", "Int!", "[Int]", "[Int!]", "[Int]!", "[Int!]!", "[[Int]]", "[[Int!]!]!", "[[Int]!]!", "[[Int!]]"];
+                let pf: String = shapes.iter().enumerate().map(|(k, t)| format!("p{}(v: {}): Int  q{}(b: Box{}): Int  r{}(bs: [Box{}]): Int", k, t, k, k, k, k)).collect::<Vec<_>>().join("  ");
+                let boxes: String = shapes.iter().enumerate().map(|(k, t)| format!("input Box{} {{ v: {} }}", k, t)).collect::<Vec<_>>().join("\n");
+                let si = gen::SchemaInfo::new("subtype-usages", &format!("{}\n{}\ntype Query {{ {} }}\n", schemas::PRELUDE, boxes, pf));
+                out.schema(&si);
+                for (kv, vt) in shapes.iter().enumerate() { for (kl, _lt) in shapes.iter().enumerate() {
+                    let dv = match *vt { "Int" => "1", "[Int]" | "[Int!]" => "[1]", "[[Int]]" | "[[Int!]]" => "[[1]]", _ => "" };
+                    let _ = kv;
+                    for t in [format!("query ($x: {}) {{ p{}(v: $x) }}", vt, kl), format!("query ($x: {}) {{ q{}(b: {{v: $x}}) }}", vt, kl), format!("query ($x: {}) {{ r{}(bs: [{{v: $x}}]) }}", vt, kl)] {
+                        crate::valcases::accept_case(&si, &t, &tmp, json!({"family": "subtype-usage"}), out);
+                    }
+                    if !dv.is_empty() { crate::valcases::accept_case(&si, &format!("query ($x: {} = {}) {{ p{}(v: $x) }}", vt, dv, kl), &tmp, json!({"family": "subtype-usage"}), out); }
+                } }
             }
         }
         "c02" => {
@@ -640,6 +677,16 @@ pub fn generate(kind: &str, thorough: bool, seed: u64, corpus: &str, out: &mut O
                 t.push_str(&format!(" fragment L{}a on T {{ a }} fragment L{}b on T {{ b }}", k, k));
                 crate::valcases::termination_case(&si, &t, &tmp, "diamond-ladder", out);
             }
+            // ill-typed literals whose rendering in the error message is long and full of multi-byte characters, at every byte alignment
+            for pad in 0..8usize {
+                for (n, ch) in [(300usize, "é"), (520, "é"), (350, "€"), (260, "😀"), (1100, "é")] {
+                    let text = format!("{}{}", "a".repeat(pad), ch.repeat(n));
+                    for t in [format!("{{ t {{ f(x: \"{}\") }} }}", text), format!("{{ t {{ f(x: [\"{}\", 1]) }} }}", text), format!("{{ t {{ f(x: {{k: \"{}\"}}) }} }}", text),
+                              format!("query ($v: Int = \"{}\") {{ t {{ f(x: $v) }} }}", text)] {
+                        if pad < 4 || n == 520 { crate::valcases::termination_case(&si, &t, &tmp, "long-multibyte-literal", out); }
+                    }
+                }
+            }
             // the same ladder below a subscription root: single-field-subscriptions expands the fragments with `collect_fields`, whose
             // visited list must keep that linear too
             for k in (if thorough { vec![8usize, 16, 22, 26, 30] } else { vec![10usize, 18, 26] }) {
@@ -675,7 +722,7 @@ pub fn generate(kind: &str, thorough: bool, seed: u64, corpus: &str, out: &mut O
                 crate::valcases::merge_case(&si, &t, &tmp, json!({"family": family, "group": group}), out);
             };
             // ---- pairs of same-key fields on Human
-            let hv = ["k: name", "k: f", "k: f(x: 1)", "k: f(x: 2)", "k: f(x: $v)", "k: f(y: [1])", "k: f(y: [1, 2])", "k: f(o: {a: 1})", "k: f(o: {b: 1})", "k: f(o: {a: 1, b: 2})",
+            let hv = ["k: f(fl: 1)", "k: f(fl: 1.0)", "k: f(fl: 1.5)", "k: f(o: {a: 1, fl: 2})", "k: f(o: {a: 1, fl: 2.0})", "k: name", "k: f", "k: f(x: 1)", "k: f(x: 2)", "k: f(x: $v)", "k: f(y: [1])", "k: f(y: [1, 2])", "k: f(o: {a: 1})", "k: f(o: {b: 1})", "k: f(o: {a: 1, b: 2})",
                       "k: f(x: 1, y: [1])", "k: f(y: [1], x: 1)", "k: list", "k: nn", "k: self { name }", "k: self { name: nn }", "k: self { name self { name } }", "k: self { name self { name: list } }", "k: pet { name }", "k: dog { name }", "k: dog { name: barks }"];
             // placements of (A, B) in one selection set on Human; `{0}` = A, `{1}` = B; fragments follow
             let placements: Vec<(&str, &str)> = vec![
@@ -864,6 +911,19 @@ pub fn generate(kind: &str, thorough: bool, seed: u64, corpus: &str, out: &mut O
                         t.push_str(&format!(" fragment F{} on T {{ t {{ {} }} }}", j, next));
                     }
                     crate::valcases::rules_case(&si, &t, &rules, &tmp, out);
+                }
+            }
+            // chains longer than any fixed bound one might pick, closing back into their own middle (a cycle that is only met far
+            // down one path), written in definition order and in reverse
+            for (n, back) in [(101usize, 1usize), (110, 60), (130, 129), (140, 0), (105, 104)] {
+                for rev in [false, true] {
+                    let mut defs: Vec<String> = vec!["query { ...F0 }".to_string()];
+                    for j in 0..n {
+                        let next = if j + 1 < n { format!("...F{}", j + 1) } else { format!("...F{}", back) };
+                        defs.push(format!("fragment F{} on Query {{ {} }}", j, next));
+                    }
+                    if rev { defs.reverse(); }
+                    crate::valcases::rules_case(&si, &defs.join(" "), &rules, &tmp, out);
                 }
             }
             // (B) type conditions of every kind at every kind of enclosing type
@@ -1121,7 +1181,7 @@ pub fn generate(kind: &str, thorough: bool, seed: u64, corpus: &str, out: &mut O
             let si = gen::SchemaInfo::new("vals", &sdl);
             out.schema(&si);
             // literals
-            let l1: Vec<String> = ["1", "2147483648", "-2147483649", "1.5", "\"s\"", "true", "null", "RED", "PURPLE", "$v"].iter().map(|x| x.to_string()).collect();
+            let l1: Vec<String> = ["1", "2147483648", "-2147483649", "9007199254740993", "1234567890123456789", "1.5", "\"s\"", "true", "null", "RED", "PURPLE", "$v"].iter().map(|x| x.to_string()).collect();
             let red: Vec<String> = ["1", "\"s\"", "null", "RED", "$v"].iter().map(|x| x.to_string()).collect();
             let mut l2: Vec<String> = vec!["[]".into(), "{}".into(), "{req: 1, zz: 1}".into(), "{opt: \"s\"}".into(), "{zz: 1}".into()];
             for x in &l1 { l2.push(format!("[{}]", x)); }
